@@ -283,6 +283,7 @@ class Tr:
         self.fixed = fixed or {}  # param -> python constant (folded)
         self.option = option
         self.self_fields = self_fields
+        self.pending = []             # hoisted partial lookups (dobind lines) awaiting the statement that uses them
         self.cut_before = cut_before  # predicate(stmt) -> bool: stop and return ret_names
         self.ret_names = ret_names
         self.ret_annot = ret_annot
@@ -449,7 +450,8 @@ class Tr:
             if isinstance(s, ast.Return):
                 if s.value is None:
                     fail(s, "bare return")
-                return self.retval(self.ev(s.value, env), s)
+                v_ = self.ev(s.value, env)
+                return self.drain() + self.retval(v_, s)
             if isinstance(s, ast.Raise):
                 if not self.option:
                     fail(s, "raise in a function not declared partial")
@@ -457,7 +459,8 @@ class Tr:
             if isinstance(s, ast.Assign):
                 if len(s.targets) != 1:
                     fail(s, "multiple assignment targets")
-                pre = self.assign(s.targets[0], self.ev(s.value, env), env, s)
+                v_ = self.ev(s.value, env)
+                pre = self.drain() + self.assign(s.targets[0], v_, env, s)
                 return pre + self.block(rest, env, tail)
             if isinstance(s, ast.AnnAssign):
                 pre = self.assign(s.target, self.ev(s.value, env), env, s)
@@ -471,7 +474,10 @@ class Tr:
                 pre = self.nested_def(s, env)
                 return pre + self.block(rest, env, tail)
             if isinstance(s, ast.If):
-                return self.if_stmt(s, rest, env, tail)
+                r_ = self.if_stmt(s, rest, env, tail)
+                if self.pending:
+                    fail(s, "partial lookup inside a condition")
+                return r_
             if isinstance(s, ast.Try):
                 # try: <body> except ...: raise ...   -> body only (handlers only re-raise)
                 for h in s.handlers:
@@ -484,6 +490,11 @@ class Tr:
                 return "Some tt"
             fail(self.fnode, "function body ends without return")
         return tail(env)
+
+    def drain(self):
+        out = "".join(self.pending)
+        self.pending.clear()
+        return out
 
     def lookup(self, name, env, node):
         if name not in env:
@@ -614,6 +625,11 @@ class Tr:
             if getattr(val, "pair_arity", 0):
                 env[nm].pair_arity = val.pair_arity
             return f"let {cn} := {val.t} in\n"
+        if isinstance(val, DL) and getattr(val, "is_option", False):
+            if not self.option:
+                fail(node, "call of a partial function inside a function not declared partial")
+            env[nm] = DL(cn)
+            return f"dobind {cn} <- {val.t} ;;\n"
         if isinstance(val, DL):
             env[nm] = DL(cn)
             return f"let {cn} := {val.t} in\n"
@@ -1153,11 +1169,19 @@ class Tr:
             if len(node.args) != 1 or node.keywords:
                 fail(node, "interp1d object call form")
             q = self.ev(node.args[0], env)
+            if not self.option:
+                fail(node, "interp1d lookup (which may raise) inside a function not declared partial")
+            # the lookup may raise (Strict mode, query outside the range): it is sequenced, in evaluation order, before the
+            # statement that uses it; None = the ValueError
+            self.ip_counter = getattr(self, "ip_counter", 0) + 1
+            nm = f"lookup_{self.ip_counter}"
+            if isinstance(q, DL):
+                self.pending.append(f"dobind {nm} <- (all_some (map (Interp.interp1d NumSig.NumR {f.mode} {f.xs} {f.ys}) {q.t})) ;;\n")
+                return DL(nm)
             if not isinstance(q, Sc):
                 fail(node, "interp1d object applied to a non-scalar")
-            r = Sc(f"(Interp.interp1d NumSig.NumR {f.mode} {f.xs} {f.ys} {q.t})")
-            r.is_option = True      # None = the ValueError scipy raises for a query outside the range (Strict mode)
-            return r
+            self.pending.append(f"dobind {nm} <- (Interp.interp1d NumSig.NumR {f.mode} {f.xs} {f.ys} {q.t}) ;;\n")
+            return Sc(nm)
         if not isinstance(f, Fn):
             fail(node, "call of non-function")
         args = []
@@ -1610,6 +1634,14 @@ def _zip(tr, node, args, kwargs):
     fail(node, "zip")
 
 
+def _hasattr(tr, node, args, kwargs):
+    if len(args) != 2 or kwargs or not isinstance(args[1], St):
+        fail(node, "hasattr form")
+    if isinstance(args[0], Di) and args[1].s == "copy":
+        return Bo(True)       # DataFrames and dicts both have .copy
+    fail(node, "hasattr on this value")
+
+
 def _copy(tr, node, args, kwargs):
     if len(args) != 1 or kwargs:
         fail(node, "copy.copy form")
@@ -1646,7 +1678,7 @@ BUILTINS = {
     "cumulative_trapezoid": _cumtrapz, "sp.integrate.cumulative_trapezoid": _cumtrapz,
     "integrate.cumulative_trapezoid": _cumtrapz,
     "brentq": _brentq, "quad": _quad,
-    "copy.copy": _copy, "interp1d": _interp1d, "interpolate.interp1d": _interp1d,
+    "copy.copy": _copy, "copy.deepcopy": _copy, "hasattr": _hasattr, "interp1d": _interp1d, "interpolate.interp1d": _interp1d,
     "np.any": _any, "pd.DataFrame": _dataframe, "np.vectorize": _vectorize, "sparse.diags": _diags,
 }
 
